@@ -144,6 +144,49 @@ def malformed_cases(seed, docs_cases, n_prefix_docs, n_flip, T):
     return out
 
 
+MB_FIELD_KINDS = ("pubnum", "pubidx", "charset", "strtbl_len", "index", "opaque_len", "entity", "ext_t")
+
+
+def padded_cases(seed, doc_cases, limit):
+    """the same abstract documents with mb_u_int32 fields written in a longer form (1..4 leading 0x80 groups, at most five
+    octets: WBXML 5.1, no shortest-form rule).  The bytes are no longer serialize(doc); what they denote is what doc denotes,
+    so `denote` of the generating document stays the oracle.  Per document: one variant per field kind present (all fields of
+    that kind padded by a random amount), one with every field padded to five octets."""
+    rng = Rng(seed, 93)
+    out = []
+
+    def rewrite(c, chosen, full):
+        bs = bytearray(c["bytes"])
+        for kind, off, ln in sorted(chosen, key=lambda f: -f[1]):
+            room = 5 - ln
+            if room <= 0:
+                continue
+            k = room if full else rng.range(1, room)
+            bs[off:off] = bytes([0x80] * k)
+        return bytes(bs)
+
+    pool = [c for c in doc_cases if "doc" in c and c.get("fields")]
+    for i in range(len(pool) - 1, 0, -1):
+        j = rng.below(i + 1)
+        pool[i], pool[j] = pool[j], pool[i]
+    for c in pool:
+        mbf = [f for f in c["fields"] if f[0] in MB_FIELD_KINDS and f[2] < 5]
+        kinds = sorted(set(f[0] for f in mbf))
+        variants = [(k, [f for f in mbf if f[0] == k], False) for k in kinds] + [("all", mbf, True)]
+        for name, chosen, full in variants:
+            if not chosen:
+                continue
+            bs = rewrite(c, chosen, full)
+            if bs == c["bytes"]:
+                continue
+            d = c["doc"]
+            out.append({"line": pline(d["forced"], d["meta"], bs), "kind": "padded-" + name, "bytes": bs, "doc": d, "padded": True,
+                        "forced": d["forced"], "meta": d["meta"], "root_end": None})
+        if len(out) >= limit:
+            break
+    return out[:limit]
+
+
 def tolerance_cases(T):
     """the documented irregularities (C13, positive) and a few hand-made edge cases"""
     out = []
@@ -174,6 +217,29 @@ def tolerance_cases(T):
     out.append(raw_case(wv + bytes([0x4B, 0xC3, 5, 1, 0, 0, 0, 0, 1]), "typed-overflow"))
     out.append(raw_case(wv + bytes([0x51, 0xC3, 6, 0x1F, 0x46, 0xA6, 0x9C, 0x9F, 0x5A, 1]), "typed-datetime"))
     out.append(raw_case(wv + bytes([0x51, 0xC3, 2, 1, 2, 1]), "typed-datetime"))
+    # mb_u_int32 in up to FIVE octets (WBXML 1.3, 5.1; the format has no shortest-form rule): every field kind with leading
+    # zero groups, entities that need the fifth octet; six octets are refused
+    def p5(v, k=4):
+        return bytes([0x80] * k + [v])
+    wtab = b"-//WAPFORUM//DTD WML 1.1//EN\0"
+    for k in (1, 2, 3, 4):
+        out.append(raw_case(wml + bytes([0, 0x7F, 0xC3]) + p5(2, k) + b"AB" + bytes([1]), "tol-mb5-opaque-len", expect_ok=True))
+        out.append(raw_case(wml + bytes([2]) + b"y\0" + bytes([0x7F, 0x83]) + p5(0, k) + bytes([1]), "tol-mb5-strt-index", expect_ok=True))
+        out.append(raw_case(wml + p5(2, k) + b"y\0" + bytes([0x7F, 0x83, 0, 1]), "tol-mb5-strtbl-len", expect_ok=True))
+        out.append(raw_case(bytes([3, 4]) + p5(106, k) + bytes([0, 0x7F, 1]), "tol-mb5-charset", expect_ok=True))
+        out.append(raw_case(bytes([3]) + p5(4, k) + bytes([106, 0, 0x7F, 1]), "tol-mb5-public-id", expect_ok=True))
+        out.append(raw_case(bytes([3, 0]) + p5(0, k) + bytes([106, len(wtab)]) + wtab + bytes([0x7F, 1]), "tol-mb5-public-id-index", expect_ok=True))
+        out.append(raw_case(wml + bytes([2]) + b"y\0" + bytes([0x7F, 0x04]) + p5(0, k) + bytes([1]), "tol-mb5-literal-tag", expect_ok=True))
+        out.append(raw_case(wml + bytes([2]) + b"y\0" + bytes([0xFF, 0x04]) + p5(0, k) + bytes([3]) + b"v\0" + bytes([1, 1]),
+                            "tol-mb5-literal-attr", expect_ok=True))
+        out.append(raw_case(wml + bytes([2]) + b"y\0" + bytes([0x7F, 0x80]) + p5(0, k) + bytes([1]), "tol-mb5-ext-t", expect_ok=True))
+        out.append(raw_case(wml + bytes([0, 0x7F, 0x02]) + p5(0x41, k) + bytes([1]), "tol-mb5-entity", expect_ok=True))
+    for ent in (bytes([0x81, 0x80, 0x80, 0x80, 0x00]), bytes([0x87, 0xFF, 0xFF, 0xFF, 0x7F]), bytes([0x83, 0xA0, 0x80, 0x80, 0x01])):
+        out.append(raw_case(wml + bytes([0, 0x7F, 0x02]) + ent + bytes([1]), "tol-mb5-entity-large", expect_ok=True))
+        out.append(raw_case(wml + bytes([0, 0xFF, 0x05, 0x02]) + ent + bytes([1, 1]), "tol-mb5-entity-large", expect_ok=True))
+    out.append(raw_case(wml + bytes([0, 0x7F, 0x02, 0xFF, 0xFF, 0xFF, 0x7F, 1]), "tol-mb5-entity-large", expect_ok=True))     # four octets (control)
+    for body in (bytes([0x7F, 0xC3]) + p5(2, 5) + b"AB" + bytes([1]), bytes([0x7F, 0x02]) + p5(0x41, 5) + bytes([1])):
+        out.append(raw_case(wml + bytes([0]) + body, "tol-mb5-six-octets", expect_ok=False))
     # Nokia content switch page
     out.append(raw_case(bytes([3, 0xA4, 0x01, 106, 0, 0x6D, 0x00, 0x01, 0x5A, 0x03]) + b"x\0" + bytes([1, 0, 0, 1]), "tol-content-switch"))
     return out
